@@ -363,7 +363,17 @@ func checkC08(c *Checker) {
 			var ps []f8piece
 			var und error
 			nBad := 0
+			type f8job struct {
+				kp       kernelPiece
+				restrict *fpiece
+			}
+			var jobs []f8job
 			for _, kp := range k.pieces {
+				jobs = append(jobs, f8job{kp, nil})
+			}
+			for ji := 0; ji < len(jobs); ji++ {
+				job := jobs[ji]
+				kp := job.kp
 				ev := &floatEval{pc: fullFPiece(), isSample: k.sample}
 				for _, cd := range kp.conds {
 					ok, err := ev.splitF(cd.Orig, cd.OrigNeg)
@@ -392,7 +402,19 @@ func checkC08(c *Checker) {
 				if und != nil {
 					break
 				}
+				if job.restrict != nil {
+					ev.pc = *job.restrict
+				}
 				if ev.pc.empty() {
+					continue
+				}
+				// a piece that covers both signs (a branch on the sign that folded away because both arms are the
+				// same expression) is read as its two halves
+				if ev.pc.lo.v < 0 && ev.pc.hi.v > 0 && job.restrict == nil {
+					neg, pos := ev.pc, ev.pc
+					neg.hi = fbound{0, false}
+					pos.lo = fbound{0, true}
+					jobs = append(jobs, f8job{kp, &neg}, f8job{kp, &pos})
 					continue
 				}
 				v, err := ev.eval(kp.val)
